@@ -31,6 +31,8 @@ Record ct_shape := {
   cts_client_unmarshals : bool;    (* recvConfig does *)
   cts_default : Z;                 (* newTransfer: Timeout *)
   cts_timer : N * Z;               (* getNewTimeout arms a timer iff Timeout OP n *)
+  cts_relay_default : Z;           (* relay.go recvConfig: the relay's own default *)
+  cts_relay_omitempty : bool;      (* the json tag of transferConfig.Timeout says omitempty *)
 }.
 
 (* the member of the record: None = absent *)
@@ -55,6 +57,18 @@ Definition ct_end (s : ct_shape) (unmarshals : bool) (t : Z) : option Z :=
 Definition ct_server (s : ct_shape) (t : Z) : option Z := ct_end s (cts_server_unmarshals s) t.
 Definition ct_client (s : ct_shape) (t : Z) : option Z := ct_end s (cts_client_unmarshals s) t.
 
+(* a relay in between: it unmarshals the record into a config of its own and marshals that whole
+   struct again for the client (the member is there unless omitempty drops a zero) *)
+Definition ct_relay_client (s : ct_shape) (t : Z) : option Z :=
+  match ct_marshal s t with
+  | None => None
+  | Some m =>
+      let v := match m with Some v => v | None => cts_relay_default s end in
+      let m2 := if cts_relay_omitempty s && (v =? 0) then None else Some v in
+      if cts_client_unmarshals s then Some (match m2 with Some w => w | None => cts_default s end)
+      else Some (cts_default s)
+  end.
+
 (* does getNewTimeout arm a timer for the value v *)
 Definition ct_armed (s : ct_shape) (v : Z) : option bool := ct_cmp (fst (cts_timer s)) v (snd (cts_timer s)).
 
@@ -68,6 +82,13 @@ Definition ct_handshake (s : ct_shape) (t : Z) : option (Z * Z * bool * bool * b
       | _, _ => None
       end
   | _, _, _ => None
+  end.
+
+(* the client behind a relay: (value, timer armed) *)
+Definition ct_via_relay (s : ct_shape) (t : Z) : option (Z * bool) :=
+  match ct_relay_client s t with
+  | Some v => match ct_armed s v with Some x => Some (v, x) | None => None end
+  | None => None
   end.
 
 (* what the property asks: the announced value on both ends, a timer iff it is positive *)
